@@ -15,12 +15,37 @@
 From Coq Require Import ZArith NArith Bool List String Lia.
 From Verif Require Import Base.Word256 Base.PyInt C14.RangeBase C14.GenRangeClients.
 From Verif Require C14.GenRange.
-From Verif Require C14.RangeSound.
-From Verif Require Import C14.RangeOp C14.RangeClients C14.RangeRefine.
 Import ListNotations.
-Import RangeSound.
+(* this file contains definitions only and depends on no proof file, so that the validator still runs (and the
+   search still works) when a proof elsewhere is broken *)
 Open Scope string_scope.
 Open Scope Z_scope.
+
+(* EVM semantics of the opcodes eval_op knows (unary ones ignore the second operand); equal to RangeOp.word_op
+   (RangeFixProofs.word_op_eq) *)
+Definition word_op (op : string) : option (Z -> Z -> Z) :=
+  if String.eqb op "add" then Some w_add else
+  if String.eqb op "sub" then Some w_sub else
+  if String.eqb op "mul" then Some w_mul else
+  if String.eqb op "and" then Some w_and else
+  if String.eqb op "or" then Some w_or else
+  if String.eqb op "xor" then Some w_xor else
+  if String.eqb op "byte" then Some w_byte else
+  if String.eqb op "signextend" then Some w_signextend else
+  if String.eqb op "mod" then Some w_mod else
+  if String.eqb op "div" then Some w_div else
+  if String.eqb op "sdiv" then Some w_sdiv else
+  if String.eqb op "smod" then Some w_smod else
+  if String.eqb op "shr" then Some w_shr else
+  if String.eqb op "shl" then Some w_shl else
+  if String.eqb op "sar" then Some w_sar else
+  if String.eqb op "eq" then Some w_eq else
+  if String.eqb op "lt" then Some w_lt else
+  if String.eqb op "gt" then Some w_gt else
+  if String.eqb op "slt" then Some w_slt else
+  if String.eqb op "sgt" then Some w_sgt else
+  if String.eqb op "iszero" then Some (fun a _ => w_iszero a) else
+  if String.eqb op "not" then Some (fun a _ => w_not a) else None.
 
 (* ------------------------------------------------------------------ syntax *)
 Inductive operand := OLit (v : Z) | OVar (x : N) | OLab (l : N).
@@ -301,7 +326,5 @@ Inductive reach (f : func) (lv : N -> Z) : N -> nat -> cenv -> Prop :=
     term_of (nth_block f p) = Some T -> In b (targets lv T c) ->
     phi_assign (leading_phis (nth_block f b)) p c c' -> reach f lv b 0%nat c'.
 
-Definition gamma (e : aenv) (c : cenv) : Prop := forall x, mem (c x) (aget e x).
-Definition wfenv (e : aenv) : Prop := forall x, wf (aget e x).
 Definition env_at (f : func) (E : list aenv) (b : N) (k : nat) : res aenv :=
   run_abs (nth_env E b) (firstn k (body (nth_block f b))).
